@@ -552,14 +552,24 @@ func (queue *Queue) AddConsumer(consumer interfaces.Consumer, exclusive bool) er
 	return nil
 }
 
-// RemoveConsumer remove consumer
+// RemoveConsumer remove the first consumer that has the given tag
 // If it was last consumer and queue is auto-delete - queue will be removed
 func (queue *Queue) RemoveConsumer(cTag string) {
+	queue.removeConsumer(func(cmr interfaces.Consumer) bool { return cmr.Tag() == cTag })
+}
+
+// RemoveConsumerInstance remove exactly the given consumer: consumer tags are unique per channel only,
+// consumers of different channels may share a tag on one queue
+func (queue *Queue) RemoveConsumerInstance(consumer interfaces.Consumer) {
+	queue.removeConsumer(func(cmr interfaces.Consumer) bool { return cmr == consumer })
+}
+
+func (queue *Queue) removeConsumer(match func(cmr interfaces.Consumer) bool) {
 	queue.cmrLock.Lock()
 	defer queue.cmrLock.Unlock()
 
 	for i, cmr := range queue.consumers {
-		if cmr.Tag() == cTag {
+		if match(cmr) {
 			queue.consumers = append(queue.consumers[:i], queue.consumers[i+1:]...)
 			break
 		}
